@@ -367,10 +367,10 @@ def iStep (P : Nat) (ctx : Ctx) (st : IState) (k : Candle Rat) (rv : List Rat) (
     pure { vals := [], sigs := exacts sg, st := .pivot s1 }
   | .cks s => do
     let (v, s1) ← s.vals k
-    let ((value, a2), s2) := s1.sigs rv
+    let ((value, a2), s2) := s1.sigs rv rne53
     -- `(src − mid)/size` is formed from rounded operands: the cancellation error is relative to their magnitudes
-    let mid := (rv.getD 2 0 + rv.getD 0 0) * (1 / 2)
-    let size := mid - rv.getD 0 0
+    let mid := rne53 (rv.getD 2 0 + rv.getD 0 0) * (1 / 2)
+    let size := rne53 (mid - rv.getD 0 0)
     let δ := if size == 0 then 0 else 16 * eps * ((ratAbs (rv.getD 1 0) + ratAbs mid) / ratAbs size + ratAbs value + 1)
     pure { vals := v, sigs := [.prop value δ, .exact a2], st := .cks s2 }
   | .adx s => do
@@ -379,7 +379,11 @@ def iStep (P : Nat) (ctx : Ctx) (st : IState) (k : Candle Rat) (rv : List Rat) (
     pure { vals := v, sigs := [.exact a1, .prop arg (8 * eps * (ratAbs arg + 1))], st := .adx s1, borderline := trZero && !flat }
   | .sar s =>
     let tol := 64 * eps * (ratAbs s.sar + ratAbs k.low + ratAbs k.high)
-    let near := ratAbs (k.low - s.sar) ≤ tol || ratAbs (k.high - s.sar) ≤ tol
+    -- a flip decision within rounding of the (computed) SAR; exact equality happens when the SAR is a copied candle
+    -- extreme (construction, flips, clamping) and is decided identically by the implementation
+    let dl := ratAbs (k.low - s.sar)
+    let dh := ratAbs (k.high - s.sar)
+    let near := (decide (0 < dl) && decide (dl ≤ tol)) || (decide (0 < dh) && decide (dh ≤ tol))
     let ((v, a), s1) := s.next k
     .ok { vals := v, sigs := [.exact a], st := .sar s1, borderline := near }
 
